@@ -27,6 +27,7 @@ type bcase struct {
 	hline   func(w *world, t *hnode, st _state.State) string // model input (computed BEFORE the delivery), "" if none
 	hres    func(r callRes) string                           // observation for the model line
 	input   func(w *world, t *hnode) string                  // the hostile message as JSON (for the violation report), may be nil
+	deep    bool                                             // followed by several rounds of honest traffic and a second probe (damage that shows on the NEXT messages)
 }
 
 var allStates = []_state.State{_state.Babbling, _state.CatchingUp, _state.Joining, _state.Suspended, _state.Shutdown, _state.Leaving}
@@ -479,6 +480,7 @@ func (w *world) cases() []bcase {
 
 	// ---------------- FastForwardResponse (hostile responder) ----------------
 	l = append(l, w.ffCases()...)
+	l = append(l, w.chainCases()...)
 	return l
 }
 
@@ -486,36 +488,44 @@ func stateCode(s _state.State) int { return int(s) }
 
 // essential: one witness per site of FINDINGS.md (plus an honest fast-forward), run in every tier
 var essential = map[string]bool{
-	"sync/limit=-1/babbling":                          true,
-	"sync/limit=-1/suspended":                         true,
-	"sync/known[h1]=-2/babbling":                      true,
-	"sync/known[h1]=-2/suspended":                     true,
-	"sync/known[h1]=-9223372036854775808/babbling":    true,
-	"sync/known[all]=-2":                              true,
-	"sync/known[only-h1]=-2":                          true,
-	"sync/known[all]=maxint":                          true,
-	"sync/known=missing-ids":                          true,
-	"sync/known=nil":                                  true,
-	"sync/known=unknown-ids":                          true,
-	"join/key=empty/sig=one":                          true,
-	"join/valid-outsider":                             true,
-	"eager/itx=empty/nonbase36":                       true,
-	"eager/sig=nonbase36":                             true,
-	"eager/events=nil/babbling":                       true,
-	"byz/bsig=0fields/index=0":                        true,
-	"byz/bsig=nonbase36/index=0":                      true,
-	"byz/bsig=good/index=0":                           true,
-	"ffresp/valid/resealed":                           true,
-	"ffresp/frame.round=7":                            true,
-	"ffresp/block.sigs+key=empty":                     true,
-	"ffresp/block.sigs[v1]=nonbase36/resealed":        true,
-	"ffresp/frame.peers+nil/resealed":                 true,
-	"ffresp/frame.roots[k]=nil/resealed":              true,
-	"ffresp/root.[0]=nil/resealed":                    true,
-	"ffresp/root.[0].core=nil/resealed":               true,
-	"ffresp/root.[0].parents=1/resealed":              true,
-	"ffresp/root.+dup-lamport.sig=nonbase36/resealed": true,
-	"ffresp/events.[0].index=7/resealed":              true,
+	"sync/limit=-1/babbling":                                  true,
+	"sync/limit=-1/suspended":                                 true,
+	"sync/known[h1]=-2/babbling":                              true,
+	"sync/known[h1]=-2/suspended":                             true,
+	"sync/known[h1]=-9223372036854775808/babbling":            true,
+	"sync/known[all]=-2":                                      true,
+	"sync/known[only-h1]=-2":                                  true,
+	"sync/known[all]=maxint":                                  true,
+	"sync/known=missing-ids":                                  true,
+	"sync/known=nil":                                          true,
+	"sync/known=unknown-ids":                                  true,
+	"join/key=empty/sig=one":                                  true,
+	"join/valid-outsider":                                     true,
+	"eager/itx=empty/nonbase36":                               true,
+	"eager/sig=nonbase36":                                     true,
+	"eager/events=nil/babbling":                               true,
+	"byzchain/fork-huge-index/eager/from=self":                true,
+	"byzchain/fork-huge-index/syncresp/from=self":             true,
+	"byzchain/fork-next-index/eager/from=self":                true,
+	"byzchain/fork-huge-index+duplicate-last/eager/from=self": true,
+	"byzchain/head-skipped-index/eager/from=self":             true,
+	"byzchain/second-first-event-huge-index/eager/from=self":  true,
+	"byzchain/duplicate-old/eager/from=other":                 true,
+	"byzchain/unknown-other-parent/eager/from=self":           true,
+	"byz/bsig=0fields/index=0":                                true,
+	"byz/bsig=nonbase36/index=0":                              true,
+	"byz/bsig=good/index=0":                                   true,
+	"ffresp/valid/resealed":                                   true,
+	"ffresp/frame.round=7":                                    true,
+	"ffresp/block.sigs+key=empty":                             true,
+	"ffresp/block.sigs[v1]=nonbase36/resealed":                true,
+	"ffresp/frame.peers+nil/resealed":                         true,
+	"ffresp/frame.roots[k]=nil/resealed":                      true,
+	"ffresp/root.[0]=nil/resealed":                            true,
+	"ffresp/root.[0].core=nil/resealed":                       true,
+	"ffresp/root.[0].parents=1/resealed":                      true,
+	"ffresp/root.+dup-lamport.sig=nonbase36/resealed":         true,
+	"ffresp/events.[0].index=7/resealed":                      true,
 }
 
 func partB(g *grammar, n int) {
@@ -625,6 +635,9 @@ func (w *world) runCase(seq int, c bcase) {
 	t.n.VerifSetState(st)
 	r := c.run(w, t)
 	t.n.VerifSetState(_state.Babbling)
+	if r.input != "" {
+		inputDesc = " input=" + r.input
+	}
 	if r.outcome == "skipped" || r.outcome == "unencodable" {
 		stats["b.skipped"]++
 		return
@@ -714,6 +727,16 @@ func (w *world) runCase(seq int, c bcase) {
 		}
 		if byzAfter, ok := t.n.VerifCore().KnownEvents()[byzID]; c.poisons && (ok != byzSeen || byzAfter != byzBefore) {
 			rebuild = true
+		}
+		if c.deep && !rebuild {
+			// nothing of the hostile message was inserted: the node must behave as if it had never arrived
+			if p := w.deepProbe(t); p != "" {
+				after = "wedged:" + p
+				violation("node-wedged", fmt.Sprintf("%s case=%s state=%s outcome=%s probe=%s%s", c.kind, c.id, stateName(st), r.outcome, p, inputDesc))
+				rebuild = true
+			} else {
+				after = "ok(+2 honest rounds)"
+			}
 		}
 	}
 	det := ""
